@@ -355,7 +355,7 @@ register(Prop("C17", c17_streams, compare=lambda op: not op.startswith("tag") an
 
 # ------------------------------------------------------------------ C18
 C18_TEXTS = ["", "a", "a b", "é", "日本", "\U0001f600", "a/b", "a?b", "a#b", "a@b", "a:b", "[x]", "a%b", "%41", "a+b", "a&b=c;d", "\x00", "\x7f", "a\tb", "a\nb", "\x85", "‮x", " ",
-             "x​y", "a\\b", "\"<>", "ü@ß:ö"]
+             "x​y", "a\\b", "\"<>", "ü@ß:ö", "a／b", "p℀q", "a＠b"]
 
 
 def c18_streams(rng, tier, budget):
@@ -421,6 +421,7 @@ def c18_oracle(full, io, b):
                 surr = hr is not None and not hr.startswith("!") and any(0xD800 <= ord(c) <= 0xDFFF for c in dec(hr))
                 out.append({"what": f"URL(u.human_repr()) != u: human_repr = {pretty_out(hr)}, re-parsed {pretty_out(v.get(h1, 'str'))}, original {pretty_out(v.get(h2, 'str'))}",
                             "class": "human-roundtrip-surrogate" if surr else "human-roundtrip", "n": n, "input": describe_handle(full, h2)})
+    import unicodedata
     for h, n in enumerate(v.cr):
         f = full[n].split("\t")
         if f[0] == "hr" and not v.alive(h):
@@ -428,7 +429,13 @@ def c18_oracle(full, io, b):
             if v.alive(src):
                 hr = v.get(src, "human_repr")
                 if hr and not hr.startswith("!"):
-                    out.append({"what": f"human_repr() = {pretty_out(hr)} is rejected by the constructor ({io[n]})", "class": "human-roundtrip", "n": n,
+                    m = re.match(r"^[a-z]+://([^/?#]*)", dec(hr))
+                    ui = m.group(1).rpartition("@")[0] if m else ""
+                    nf = unicodedata.normalize("NFKC", ui.replace("@", "").replace(":", ""))
+                    cls = "human-roundtrip"
+                    if ui and not ui.isascii() and any(d in nf for d in "/?#@:"):
+                        cls = "human-roundtrip-nfkc-userinfo"
+                    out.append({"what": f"human_repr() = {pretty_out(hr)} is rejected by the constructor ({io[n]})", "class": cls, "n": n,
                                 "input": describe_handle(full, src)})
     return out
 
